@@ -1,4 +1,5 @@
 import Ledger.Proofs.MachineAsset
+import Ledger.Machine.VM
 
 /-!
 C27 — Compiling and running any input never crashes.
@@ -29,6 +30,28 @@ theorem exec_total (s : Script) (inp : Input) :
   cases h : sem cfg s inp with
   | ok r => exact Or.inl ⟨r, rfl⟩
   | error e => exact Or.inr ⟨e, rfl⟩
+
+/-- Byte-code level: the VM model `exec` (the real opcodes, decoded instruction list,
+    no fuel: the VM has no jumps so the recursion is structural on the instruction list)
+    is a total function — every program, environment and balances give a final state
+    or an explicit error (typed-pop faults of the Go code are `Err.fault`). -/
+theorem exec_total_bytecode (p : Program) (env : Env) (bal : Balances) :
+    (∃ st, exec p env bal = .ok st) ∨ (∃ e, exec p env bal = .error e) := by
+  cases h : exec p env bal with
+  | ok st => exact Or.inl ⟨st, rfl⟩
+  | error e => exact Or.inr ⟨e, rfl⟩
+
+/-- Same for compilation: `compile` is total on the syntax. -/
+theorem compile_total (s : Script) :
+    (∃ p, compile s = .ok p) ∨ (∃ e, compile s = .error e) := by
+  cases h : compile s with
+  | ok p => exact Or.inl ⟨p, rfl⟩
+  | error e => exact Or.inr ⟨e, rfl⟩
+
+/-- A failing byte-code run returns no result either. -/
+theorem error_leaves_no_postings_bytecode (s : Script) (inp : Input) (e : Err)
+    (h : semBytecode cfg s inp = .error e) : postingsOf (semBytecode cfg s inp) = none := by
+  rw [h]; rfl
 
 /-- A failing run returns no result at all: no postings, no metadata (the adapter
     returns `nil, err`; `resultNil` is checked on the real code for every failing case). -/
@@ -222,6 +245,16 @@ theorem welltyped_no_stack_fault_prefix_false : ¬ welltyped_no_stack_fault Cfg.
   | error e => rw [hs] at hp; simp [errOf] at hp; rw [hp]
 
 /-! Non-vacuity (kernel-evaluated tests). -/
+def bcScript : Script :=
+  { vars := [⟨.monetary, "m", .none⟩],
+    stmts := [.send (.var "m")
+      (.src (.inorder (.cons (.account (.acct "a") .none) (.cons (.account (.acct "world") .none) .nil))))
+      (.inorder (.cons (.mon (.asset "USD") 10) (.to (.account (.acct "x"))) .nil) .kept)] }
+def bcInput : Input :=
+  { vars := [("m", "USD 30")], balance := fun a _ => if a = "a" then 7 else 0, accountMeta := fun _ => none }
+example : postingsOf (semBytecode Cfg.fixed bcScript bcInput) = postingsOf (sem Cfg.fixed bcScript bcInput) ∧
+    postingsOf (sem Cfg.fixed bcScript bcInput) = some [⟨"a", "x", "USD", 7⟩, ⟨"world", "x", "USD", 3⟩] := by
+  constructor <;> decide +kernel
 example : errOf (sem Cfg.fixed nilNumberScript (emptyInput [("n", "12")])) = none := by decide +kernel
 example : typeExpr [("m", .monetary)] (.add (.var "m") (.mon (.asset "USD") 3)) = .ok .monetary := by
   decide +kernel
